@@ -55,6 +55,7 @@ type CRP struct {
 	HistLimit    int64    `json:"histLimit"` // -1 = unset
 	Objects      []string `json:"objects"`   // ObjectSlice: keys
 	Class        string   `json:"class"`     // ObjectSetPhase class label
+	DepKey       string   `json:"depKey"`    // ObjectSet: key of the controlling ObjectDeployment ("" if none)
 }
 
 // Proj is the abstract state of one API object — exactly the fields of ObjRec in spec/Store.tla.
@@ -76,6 +77,7 @@ type Proj struct {
 	Spec     string   `json:"spec"`  // content class (hash of non-metadata, non-status fields + user labels/annotations)
 	Probe    string   `json:"probe"` // status class for the standard probe: Ready|NotReady|Stale|None
 	CR       CRP      `json:"cr"`
+	Key      string   `json:"key"` // the object's own key
 }
 
 func (p *Proj) fill() {
@@ -181,6 +183,10 @@ func (pr *Projector) Project(m map[string]any) Proj {
 	}
 	u := unstructured.Unstructured{Object: m}
 	p.Exists = true
+	{
+		gvk := u.GroupVersionKind()
+		p.Key = Key{gvk.Group, gvk.Kind, u.GetNamespace(), u.GetName()}.String()
+	}
 	p.Kind = u.GetKind()
 	p.OID = u.GetKind() + "/" + u.GetName()
 	p.UID = string(u.GetUID())
@@ -352,6 +358,11 @@ func projectCR(u *unstructured.Unstructured) CRP {
 			for _, x := range rp {
 				xm := x.(map[string]any)
 				c.RemotePhases = append(c.RemotePhases, OwnerP{ID: kind + "Phase/" + getStr(xm, "name"), UID: getStr(xm, "uid")})
+			}
+		}
+		for _, o := range u.GetOwnerReferences() {
+			if o.Controller != nil && *o.Controller && (o.Kind == "ObjectDeployment" || o.Kind == "ClusterObjectDeployment") {
+				c.DepKey = Key{pkoGroup, o.Kind, ns, o.Name}.String()
 			}
 		}
 		c.PausedByPar = u.GetAnnotations()["package-operator.run/paused-by-parent"] == "true"
